@@ -47,3 +47,20 @@ Lemma firstn_app_exact' {A} (a b : list A) n : length a = n -> firstn n (a ++ b)
 Proof. intros <-. apply firstn_app_exact. Qed.
 Lemma skipn_app_exact' {A} (a b : list A) n : length a = n -> skipn n (a ++ b) = b.
 Proof. intros <-. apply skipn_app_exact. Qed.
+
+(* functional update of the n-th element *)
+Fixpoint set_at {A} (n : nat) (v : A) (l : list A) : list A :=
+  match l, n with
+  | [], _ => []
+  | _ :: tl, O => v :: tl
+  | x :: tl, S k => x :: set_at k v tl
+  end.
+
+Lemma set_at_length {A} (l : list A) : forall n v, length (set_at n v l) = length l.
+Proof. induction l; intros [|n] v; simpl; auto. Qed.
+
+Lemma nth_set_at_same {A} (l : list A) : forall n v d, (n < length l)%nat -> nth n (set_at n v l) d = v.
+Proof. induction l as [|x l IH]; intros [|n] v d H; simpl in *; try lia; auto. apply IH. lia. Qed.
+
+Lemma nth_set_at_other {A} (l : list A) : forall n m v d, n <> m -> nth m (set_at n v l) d = nth m l d.
+Proof. induction l as [|x l IH]; intros [|n] [|m] v d H; simpl; auto; try congruence. Qed.
